@@ -191,6 +191,13 @@ def run(ctx):
             route = rnd.choice(["constructor", "constructor", "factory", "create"])
             term = G.build_term(fl, spec, route=route)
             ctx.hit(f"route:{route}")
+            # whatever the route, the term is the one that was asked for: the parameters and the height the definition is
+            # scaled by are those given (a height that a route drops gives a different membership function)
+            held = R.params_of(term)
+            asked = (kind, tuple(float(v) for v in spec["params"]), float(spec["height"]))
+            ctx.evaluated()
+            if held != asked and not (held and held[0] == asked[0] and held[2] == asked[2] and len(held[1]) == len(asked[1]) and all(a == b or (a != a and b != b) for a, b in zip(held[1], asked[1]))):
+                ctx.violation(f"a term built through the {route} route does not hold the parameters and height it was given", {"term": kind, "route": route, "params": spec["params"], "height": spec["height"]}, asked, held)
             xs = G.x_values(rnd, spec, lo, hi)
             form = i // len(kinds) % 4
             arr = np.array(xs)
